@@ -19,7 +19,7 @@ import (
 func init() {
 	Registry["C01"] = &Oracle{Run: runC01, Lines: linesMsg(checkRoundTrip, nil)}
 	Registry["C02"] = &Oracle{Run: runC02, Lines: linesMsg(nil, checkRepack)}
-	Registry["C08"] = &Oracle{Run: runC08, Lines: linesMsg(checkRoundTrip, checkRepack)}
+	Registry["C08"] = &Oracle{Run: runC08, Lines: linesC08}
 	Registry["C19"] = &Oracle{Run: runC19, Lines: linesMsg(checkAttribution, nil)}
 }
 
@@ -763,6 +763,57 @@ func linesMsg(onPack func(*Reporter, *T, *T), onUnpack func(*Reporter, *T, []byt
 						}
 					}
 				}()
+			}
+		}
+	}
+}
+
+// linesC08 re-examines correspondence differences: an Unpack that panics on an announced
+// length it should have rejected is a violation with that very line as the failing input;
+// an accepted field whose announced length exceeds its maximum / the bytes available likewise.
+func linesC08(lines []string, rep *Reporter) {
+	for _, l := range lines {
+		t := strings.Split(l, " ")
+		if len(t) != 4 || (t[0] != "F" && t[0] != "M") {
+			continue
+		}
+		res := impl.Run(l)
+		rep.Case(l)
+		if res == "panic" && t[2] == "unpack" {
+			rep.Viol("Unpack panicked on an announced length instead of rejecting it with an error", l, "")
+			continue
+		}
+		if t[0] == "F" && t[2] == "unpack" && strings.HasPrefix(res, "ok ") {
+			data, _ := impl.UnHex(t[3])
+			parts := strings.Split(res, " ")
+			if read, err := strconv.Atoi(parts[len(parts)-1]); err == nil && read > len(data) {
+				rep.Viol("Unpack accepted a field announcing more bytes than available", l, fmt.Sprintf("read %d of %d", read, len(data)))
+			}
+		}
+		if t[0] == "F" && t[2] == "pack" && strings.HasPrefix(res, "ok ") {
+			// packed although the model refuses: check the declared bound directly
+			specT, ok := impl.ParseTree(t[1])
+			if ok && specT.Name == "p" {
+				max, _ := strconv.Atoi(specT.Kids[1].Name)
+				pref := specT.Kids[3].Name
+				if pr := impl.Prefixer(pref); pr != nil && pref != "none" && !strings.HasSuffix(pref, ".F") {
+					wire, _ := impl.UnHex(strings.TrimPrefix(res, "ok "))
+					if n, _, err := pr.DecodeLength(1<<40, wire); err == nil {
+						w, _ := prefWidthAlphabet(pref)
+						capa := capacityOf(pref)
+						if n > max && !(pref == "ber" && max == 0) {
+							rep.Viol("Pack produced bytes for a value longer than the declared maximum", l, fmt.Sprintf("announced %d > max %d", n, max))
+						} else if pref != "ber" && capa >= 0 {
+							// the prefix must announce exactly the value that follows
+							f, ok := impl.FieldOfTree(specT)
+							if ok {
+								if read, err := f.Unpack(wire); err != nil || read != len(wire) {
+									rep.Viol("Pack produced bytes whose length prefix does not fit the prefix digits (the packed field does not unpack to its own length)", l, fmt.Sprintf("prefix width %d, wire %x: read %d err %v", w, wire, read, err))
+								}
+							}
+						}
+					}
+				}
 			}
 		}
 	}
